@@ -118,45 +118,65 @@ int main(int argc, char** argv) {
     noise((int)(step + nb));
     Host H[2]; int nj = 0; bool isT = false, have_twin = false;
     G res; T tres; G twin; T ttwin;
-    bool j1 = mask & 1, j2 = mask & 2;
-    // operand values as owning copies (for the owning twin)
-    if (op == "compose" || op == "between" || op == "timeseq") {
-      nj = op == "timeseq" ? 0 : 2; const std::string x = op == "timeseq" ? dst : a, y = op == "timeseq" ? a : b;
-      withG(m, x, [&](const auto& X) { withG(m, y, [&](const auto& Y) {
-        G Xo = X, Yo = Y;
-        if (op == "between") { res = X.between(Y, H[0].ref(j1), H[1].ref(j2)); twin = Xo.between(Yo); }
-        else { res = X.compose(Y, H[0].ref(j1), H[1].ref(j2)); twin = Xo.compose(Yo); }
-        have_twin = true; }); });
-    } else if (op == "inverse" || op == "assign" || op == "log") {
-      nj = op == "assign" ? 0 : 1;
-      withG(m, a, [&](const auto& X) { G Xo = X;
-        if (op == "inverse") { res = X.inverse(H[0].ref(j1)); twin = Xo.inverse(); have_twin = true; }
-        else if (op == "log") { tres = X.log(H[0].ref(j1)); ttwin = Xo.log(); isT = true; have_twin = true; }
-        else res = X; });
-    } else if (op == "rplus" || op == "lplus" || op == "pluseq") {
-      nj = op == "pluseq" ? 0 : 2; const std::string x = op == "pluseq" ? dst : a, y = op == "pluseq" ? a : b;
-      withG(m, x, [&](const auto& X) { withT(m, y, [&](const auto& t) { G Xo = X; T to = t;
-        if (op == "lplus") { res = X.lplus(t, H[0].ref(j1), H[1].ref(j2)); twin = Xo.lplus(to); }
-        else { res = X.rplus(t, H[0].ref(j1), H[1].ref(j2)); twin = Xo.rplus(to); }
-        have_twin = true; }); });
-    } else if (op == "exp" || op == "tassign" || op == "tneg") {
-      nj = op == "exp" ? 1 : 0;
-      withT(m, a, [&](const auto& t) { T to = t;
-        if (op == "exp") { res = t.exp(H[0].ref(j1)); twin = to.exp(); have_twin = true; }
-        else if (op == "tneg") { tres = -t; ttwin = -to; isT = true; have_twin = true; }
-        else { tres = t; isT = true; } });
-    } else if (op == "rminus" || op == "lminus") {
-      nj = 2; isT = true;
-      withG(m, a, [&](const auto& X) { withG(m, b, [&](const auto& Y) { G Xo = X, Yo = Y;
-        if (op == "rminus") { tres = X.rminus(Y, H[0].ref(j1), H[1].ref(j2)); ttwin = Xo.rminus(Yo); }
-        else { tres = X.lminus(Y, H[0].ref(j1), H[1].ref(j2)); ttwin = Xo.lminus(Yo); }
-        have_twin = true; }); });
-    } else if (op == "normalize") { withG(m, dst, [&](const auto& X) { res = X; }); do_normalize(res); }
-    else if (op == "setIdentity") { res.setIdentity(); }
-    else if (op == "setRandom") { res.setRandom(); }
-    else if (op == "tsetZero") { tres.setZero(); isT = true; }
-    else if (op == "tsetRandom") { tres.setRandom(); isT = true; }
-    else { std::fprintf(stderr, "unknown op %s\n", op.c_str()); return 3; }
+    // one evaluation of the planned call with output mask mk into hosts HH (operands are not yet modified)
+    auto evalop = [&](int mk, Host* HH, G& res, T& tres, bool dotwin) {
+      bool j1 = mk & 1, j2 = mk & 2;
+      if (op == "compose" || op == "between" || op == "timeseq") {
+        nj = op == "timeseq" ? 0 : 2; const std::string x = op == "timeseq" ? dst : a, y = op == "timeseq" ? a : b;
+        withG(m, x, [&](const auto& X) { withG(m, y, [&](const auto& Y) {
+          G Xo = X, Yo = Y;
+          if (op == "between") { res = X.between(Y, HH[0].ref(j1), HH[1].ref(j2)); if (dotwin) twin = Xo.between(Yo); }
+          else { res = X.compose(Y, HH[0].ref(j1), HH[1].ref(j2)); if (dotwin) twin = Xo.compose(Yo); }
+          have_twin = true; }); });
+      } else if (op == "inverse" || op == "assign" || op == "log") {
+        nj = op == "assign" ? 0 : 1;
+        withG(m, a, [&](const auto& X) { G Xo = X;
+          if (op == "inverse") { res = X.inverse(HH[0].ref(j1)); if (dotwin) twin = Xo.inverse(); have_twin = true; }
+          else if (op == "log") { tres = X.log(HH[0].ref(j1)); if (dotwin) ttwin = Xo.log(); isT = true; have_twin = true; }
+          else res = X; });
+      } else if (op == "rplus" || op == "lplus" || op == "pluseq") {
+        nj = op == "pluseq" ? 0 : 2; const std::string x = op == "pluseq" ? dst : a, y = op == "pluseq" ? a : b;
+        withG(m, x, [&](const auto& X) { withT(m, y, [&](const auto& t) { G Xo = X; T to = t;
+          if (op == "lplus") { res = X.lplus(t, HH[0].ref(j1), HH[1].ref(j2)); if (dotwin) twin = Xo.lplus(to); }
+          else { res = X.rplus(t, HH[0].ref(j1), HH[1].ref(j2)); if (dotwin) twin = Xo.rplus(to); }
+          have_twin = true; }); });
+      } else if (op == "exp" || op == "tassign" || op == "tneg") {
+        nj = op == "exp" ? 1 : 0;
+        withT(m, a, [&](const auto& t) { T to = t;
+          if (op == "exp") { res = t.exp(HH[0].ref(j1)); if (dotwin) twin = to.exp(); have_twin = true; }
+          else if (op == "tneg") { tres = -t; if (dotwin) ttwin = -to; isT = true; have_twin = true; }
+          else { tres = t; isT = true; } });
+      } else if (op == "rminus" || op == "lminus") {
+        nj = 2; isT = true;
+        withG(m, a, [&](const auto& X) { withG(m, b, [&](const auto& Y) { G Xo = X, Yo = Y;
+          if (op == "rminus") { tres = X.rminus(Y, HH[0].ref(j1), HH[1].ref(j2)); if (dotwin) ttwin = Xo.rminus(Yo); }
+          else { tres = X.lminus(Y, HH[0].ref(j1), HH[1].ref(j2)); if (dotwin) ttwin = Xo.lminus(Yo); }
+          have_twin = true; }); });
+      } else if (op == "normalize") { withG(m, dst, [&](const auto& X) { res = X; }); do_normalize(res); }
+      else if (op == "setIdentity") { res.setIdentity(); }
+      else if (op == "setRandom") { res.setRandom(); }
+      else if (op == "tsetZero") { tres.setZero(); isT = true; }
+      else if (op == "tsetRandom") { tres.setRandom(); isT = true; }
+      else { std::fprintf(stderr, "unknown op %s\n", op.c_str()); std::exit(3); }
+    };
+    evalop(mask, H, res, tres, true);
+    // the same call under every other subset of the optional outputs (C09: the value and each Jacobian must not depend
+    // on which outputs are requested); logged as "alts" = [[mask, value, J1 block or [], J2 block or []], ...]
+    std::string alts = "[";
+    if (nj > 0) {
+      int nm = nj == 2 ? 4 : 2; bool firstalt = true;
+      for (int mk = 0; mk < nm; ++mk) {
+        if (mk == mask) continue;
+        Host HA[2]; G r2; T t2; evalop(mk, HA, r2, t2, false);
+        std::ostringstream ss; ss << (firstalt ? "" : ",") << "[" << mk << ",[";
+        auto bits = [&](double d) { uint64_t bb; std::memcpy(&bb, &d, 8); ss << "[" << (int32_t)(bb >> 32) << "," << (int32_t)(bb & 0xffffffffu) << "]"; };
+        if (isT) for (int i = 0; i < DOF; ++i) { if (i) ss << ","; bits((double)t2.coeffs()(i)); } else for (int i = 0; i < REP; ++i) { if (i) ss << ","; bits((double)r2.coeffs()(i)); }
+        ss << "]";
+        for (int k = 0; k < 2; ++k) { ss << ",["; if (k < nj && (mk & (1 << k))) for (int i = 0; i < DOF; ++i) { if (i) ss << ","; ss << "["; for (int j = 0; j < DOF; ++j) { if (j) ss << ","; bits((double)HA[k].h(i + 2, j + 2)); } ss << "]"; } ss << "]"; }
+        ss << "]"; alts += ss.str(); firstalt = false;
+      }
+    }
+    alts += "]";
 
     // write the destination through its own storage kind, using the API's own mutating form where one exists
     if (!isT) {
@@ -177,7 +197,7 @@ int main(int argc, char** argv) {
     o.num("isT", isT ? 1 : 0);
     if (isT) o.vec("res", tres.coeffs()); else o.vec("res", res.coeffs());
     if (have_twin) { if (isT) o.vec("twin", ttwin.coeffs()); else o.vec("twin", twin.coeffs()); }
-    log_hosts(o, H, nj, mask);
+    log_hosts(o, H, nj, mask); o.raw("alts", alts);
     log_state(o, m); o.end();
   }
   out().close();
